@@ -211,6 +211,15 @@ func (c *Ctx) execCall(fr *Frame, st *State, reach string, ins ssa.Instruction, 
 	}
 	pos := ins.Pos()
 	c.curCall = cc
+	if key, ok := c.tracedKey(fr, cc); ok {
+		res := c.execCallInner(fr, st, reach, ins, cc, resType, name, pos)
+		c.logCall(fr, st, reach, key, cc, res)
+		return res
+	}
+	return c.execCallInner(fr, st, reach, ins, cc, resType, name, pos)
+}
+
+func (c *Ctx) execCallInner(fr *Frame, st *State, reach string, ins ssa.Instruction, cc *ssa.CallCommon, resType types.Type, name string, pos token.Pos) Val {
 	if cc.IsInvoke() {
 		return c.execInvoke(fr, st, reach, name, pos, cc, resType)
 	}
@@ -236,6 +245,8 @@ func (c *Ctx) execCall(fr *Frame, st *State, reach string, ins ssa.Instruction, 
 }
 
 func (c *Ctx) callFunction(fr *Frame, st *State, reach, name string, pos token.Pos, fn *ssa.Function, binds []Val, args []Val, resType types.Type) Val {
+	c.curArgs, c.curState = args, st
+	defer func() { c.curArgs, c.curState = nil, nil }()
 	pk := fnPkg(fn)
 	if pk == nil || !c.w.isRepoPkg(pk.Pkg.Path()) {
 		return c.callExternal(fr, st, reach, name, pos, fn, args, resType)
@@ -401,6 +412,9 @@ func (c *Ctx) callDynamic(fr *Frame, st *State, reach, name string, pos token.Po
 		ms := newModSet()
 		ms.EC = true
 		ms.Locks = true
+		if sig, ok := cc.Value.Type().Underlying().(*types.Signature); ok {
+			ms.StoreRef = c.envStoreArg(st, sig, args, 0)
+		}
 		c.callEffects(st, reach, pos, ms, "function value "+cc.Value.Name()+" of EC-framed type")
 		c.noteAssumption("call through a value of type " + types.TypeString(cc.Value.Type(), nil) + ": result is a value, effects bounded by the EC frame (proved for every function of that type in the sweep)")
 		r := c.freshResult(st, reach, name, resType)
@@ -594,6 +608,9 @@ func (c *Ctx) applyContract(fr *Frame, st *State, reach, name string, pos token.
 	c.bindResults(post, con, res, resType)
 	c.evalLetsWithOld(post, con, ev)
 	for _, en := range con.Ensures {
+		if mentionsTrace(en.Expr, c.sp) {
+			continue // about the callee's own ghost call log: meaningless here
+		}
 		tv, err := post.eval(en.Expr)
 		if err != nil {
 			c.unsupportedf("ensures of %s: %v", con.Key, err)
@@ -699,7 +716,30 @@ func (c *Ctx) dispatch(fr *Frame, st *State, reach, name string, pos token.Pos, 
 	}
 	c.callEffects(st, reach, pos, ms, "interface method "+m.Name())
 	c.noteAssumption("interface method " + m.FullName() + " (not a pure accessor): result unconstrained, effects = union of implementers' inferred mod-sets")
-	return c.freshResult(st, reach, name, resType)
+	res := c.freshResult(st, reach, name, resType)
+	// interface-level contract (assumed of every implementation): pkg.Iface.Method
+	// the contract is keyed by the interface that declares the method (ast.Node.Source also covers ast.Expr/Stmt)
+	declT := ifaceT
+	if sig, ok := m.Type().(*types.Signature); ok && sig.Recv() != nil {
+		declT = sig.Recv().Type()
+	}
+	if n, ok := declT.(*types.Named); ok && n.Obj().Pkg() != nil {
+		if con := c.sp.Contracts[n.Obj().Pkg().Name()+"."+n.Obj().Name()+"."+m.Name()]; con != nil {
+			ev := c.newSpecEval(nil, st, st)
+			ev.pkg = con.Pkg
+			ev.vars["recv"] = TV{T: rt, Typ: ifaceT}
+			c.bindResults(ev, con, res, resType)
+			for _, en := range con.Ensures {
+				if tv, err := ev.eval(en.Expr); err == nil {
+					c.assume(reach, tv.T)
+				} else {
+					c.unsupportedf("ensures of %s: %v", con.Key, err)
+				}
+			}
+			c.noteAssumption("interface-level contract assumed for every implementation of " + con.Key)
+		}
+	}
+	return res
 }
 
 func (c *Ctx) callMethodImpl(fr *Frame, st *State, reach, name string, pos token.Pos, mfn *ssa.Function, args []Val, resType types.Type) Val {
@@ -910,6 +950,13 @@ func (c *Ctx) contractMods(fn *ssa.Function, con *Contract) *ModSet {
 			ms := newModSet()
 			ms.EC = true
 			ms.Locks = true
+			if c.curArgs != nil && c.curState != nil {
+				off := 0
+				if fn.Signature.Recv() != nil {
+					off = 1
+				}
+				ms.StoreRef = c.envStoreArg(c.curState, fn.Signature, c.curArgs, off)
+			}
 			return ms
 		}
 	}
@@ -946,13 +993,226 @@ func (c *Ctx) callEffects(st *State, reach string, pos token.Pos, ms *ModSet, wh
 			c.oblige("FRAME", "FRAME.call", pos, reach, "false",
 				"callee "+what+" may write pre-existing memory ("+strings.Join(bad, ",")+") outside this function's frame")
 		}
+		// scope discipline: an evaluating callee writes (at most) the variables of the scope it is given
+		if ms.EC && !allowedAll && c.storeStrict() {
+			switch ms.StoreRef {
+			case "":
+			case "*":
+				c.oblige("FRAME", "FRAME.scope", pos, reach, "false", "callee "+what+" may assign variables of an unknown scope")
+			default:
+				c.oblige("FRAME", "FRAME.scope", pos, reach, c.storeAllowed(ms.StoreRef),
+					"callee "+what+" assigns variables of the scope it is given: that must be this function's own scope or one created here")
+			}
+		}
 	}
 	c.applyMods(st, ms)
 }
 
-func (c *Ctx) modsAtCurCall(fn *ssa.Function) *ModSet {
-	if c.curCall != nil && c.curCall.StaticCallee() == fn {
-		return c.mods.AtCall(fn, c.curCall.Args)
+// storeStrict: functions held to the EC frame (explicitly or by package default) obey the scope discipline.
+func (c *Ctx) storeStrict() bool {
+	if c.contract != nil && c.contract.HasAssigns {
+		for _, a := range c.contract.Assigns {
+			if a == "EC" {
+				return true
+			}
+		}
+		return len(c.contract.Assigns) == 0
 	}
-	return c.mods.AtCall(fn, nil)
+	return c.mods.defaultFrameOf(c.fn) == "EC" || c.mods.isECFuncValue(c.fn)
+}
+
+func (c *Ctx) modsAtCurCall(fn *ssa.Function) *ModSet {
+	var ms *ModSet
+	if c.curCall != nil && c.curCall.StaticCallee() == fn {
+		ms = c.mods.AtCall(fn, c.curCall.Args)
+	} else {
+		ms = c.mods.AtCall(fn, nil)
+	}
+	if ms != nil && ms.EC && c.curArgs != nil && c.curState != nil {
+		cp := *ms
+		off := 0
+		if fn.Signature.Recv() != nil {
+			off = 1
+		}
+		cp.StoreRef = c.envStoreArg(c.curState, fn.Signature, c.curArgs, off)
+		return &cp
+	}
+	return ms
+}
+
+// ---- ghost call log -------------------------------------------------------------------------
+// Direct calls of `traced` functions (and every call through a function-typed parameter or captured
+// variable) are appended to a ghost log (callee id, up to three reference/int arguments, first result).
+// Contracts speak about it with ncalls, called(i, f), arg1(i)..arg3(i), result(i).
+
+func dynID(name string) int {
+	h := 0
+	for _, r := range name {
+		h = (h*31 + int(r)) % 1000003
+	}
+	return -(h + 1)
+}
+
+func (c *Ctx) tracedKey(fr *Frame, cc *ssa.CallCommon) (int, bool) {
+	if c.specDepth > 0 || cc.IsInvoke() {
+		return 0, false
+	}
+	if callee := cc.StaticCallee(); callee != nil {
+		if _, isClosure := cc.Value.(*ssa.MakeClosure); isClosure {
+			return 0, false
+		}
+		if c.sp.Traced[c.w.keyOfAny(callee)] {
+			return c.w.fnID(callee), true
+		}
+		return 0, false
+	}
+	switch v := cc.Value.(type) {
+	case *ssa.Parameter:
+		return dynID(v.Name()), true
+	case *ssa.FreeVar:
+		return dynID(v.Name()), true
+	case *ssa.Builtin:
+		return 0, false
+	}
+	if c.mods.isECFuncType(cc.Value.Type()) {
+		return dynID(types.TypeString(cc.Value.Type(), func(p *types.Package) string { return p.Name() })), true
+	}
+	return 0, false
+}
+
+func (c *Ctx) logCall(fr *Frame, st *State, reach string, id int, cc *ssa.CallCommon, res Val) {
+	n := st.trN
+	put := func(arr, val string) {
+		a := c.arr(st, arr, "Int")
+		c.setArr(st, arr, "Int", fmt.Sprintf("(store %s %s %s)", a, n, val))
+	}
+	put("TR_fn", smtInt(int64(id)))
+	k := 0
+	loggedSlice := false
+	for ai, a := range cc.Args {
+		if k >= 5 {
+			break
+		}
+		srt := c.sorts.Of(a.Type())
+		if srt == "Slice" && isPanObjectElems(a.Type()) && ai == len(cc.Args)-1 && cc.Signature().Variadic() {
+			// variadic []PanObject: its first elements take the next argument slots
+			sv := c.term(c.operand(fr, a, st))
+			earr := c.arr(st, c.sorts.ElemArrayT(a.Type().Underlying().(*types.Slice).Elem()), "Int")
+			for j := 0; k < 5 && j < 3; j++ {
+				k++
+				put(fmt.Sprintf("TR_a%d", k), fmt.Sprintf("(select (select %s (s_arr %s)) (+ (s_off %s) %d))", earr, sv, sv, j))
+			}
+			put("TR_len", "(s_len "+sv+")")
+			continue
+		}
+		if srt == "Slice" && !loggedSlice {
+			loggedSlice = true
+			sv := c.term(c.operand(fr, a, st))
+			put("TR_sa_arr", "(s_arr "+sv+")")
+			put("TR_sa_off", "(s_off "+sv+")")
+			put("TR_sa_len", "(s_len "+sv+")")
+			put("TR_sa_cap", "(s_cap "+sv+")")
+			continue
+		}
+		if srt != "Int" && srt != "Bool" {
+			continue
+		}
+		v := c.operand(fr, a, st)
+		t := c.term(v)
+		if srt == "Bool" {
+			t = "(ite " + t + " 1 0)"
+		}
+		k++
+		put(fmt.Sprintf("TR_a%d", k), t)
+	}
+	r := res
+	if len(res.Tup) > 0 {
+		r = res.Tup[0]
+		if len(res.Tup) > 1 && res.Tup[1].T != "" && res.Tup[1].Typ != nil {
+			switch c.sorts.Of(res.Tup[1].Typ) {
+			case "Bool":
+				put("TR_res2", "(ite "+res.Tup[1].T+" 1 0)")
+			case "Int":
+				put("TR_res2", res.Tup[1].T)
+			}
+		}
+		for _, x := range res.Tup[1:] {
+			if x.T != "" && x.Typ != nil && c.sorts.Of(x.Typ) == "Slice" {
+				put("TR_sr_arr", "(s_arr "+x.T+")")
+				put("TR_sr_off", "(s_off "+x.T+")")
+				put("TR_sr_len", "(s_len "+x.T+")")
+				put("TR_sr_cap", "(s_cap "+x.T+")")
+				break
+			}
+		}
+	}
+	if r.T != "" && r.Typ != nil {
+		switch c.sorts.Of(r.Typ) {
+		case "Int":
+			put("TR_res", r.T)
+		case "Bool":
+			put("TR_res", "(ite "+r.T+" 1 0)")
+		}
+	}
+	st.trN = c.define("trn", "Int", "(+ "+n+" 1)")
+}
+
+func isPanObjectElems(t types.Type) bool {
+	sl, ok := t.Underlying().(*types.Slice)
+	return ok && isPanObjectIface(sl.Elem())
+}
+
+// envStoreArg: the Store of the first *object.Env argument of a call (the callee's own scope).
+func (c *Ctx) envStoreArg(st *State, sig *types.Signature, args []Val, recvOffset int) string {
+	for i := 0; i < sig.Params().Len(); i++ {
+		if types.TypeString(sig.Params().At(i).Type(), nil) == "*"+repoMod+"/object.Env" {
+			j := i + recvOffset
+			if j < len(args) && args[j].T != "" {
+				envT, _ := c.w.LookupType("object.Env", "object")
+				st2 := envT.Underlying().(*types.Struct)
+				for f := 0; f < st2.NumFields(); f++ {
+					if st2.Field(f).Name() == "Store" {
+						return c.readField(st, envT, f, args[j].T)
+					}
+				}
+			}
+			return "*"
+		}
+	}
+	return ""
+}
+
+// myStore: the store of this function's own env parameter at entry ("" if it has none).
+func (c *Ctx) myStoreRef() string {
+	if c.myStore != "" || c.topFrame == nil {
+		return c.myStore
+	}
+	fn := c.fn
+	var args []Val
+	for _, p := range fn.Params {
+		args = append(args, c.topFrame.vals[p])
+	}
+	// signature params exclude the receiver; fn.Params include it
+	off := 0
+	if fn.Signature.Recv() != nil {
+		off = 1
+	}
+	s := c.envStoreArg(c.entry, fn.Signature, args, off)
+	if s == "*" {
+		s = ""
+	}
+	c.myStore = s
+	return s
+}
+
+// storeAllowed: may this activation let the store `s` be written? Only its own scope or a scope created here.
+func (c *Ctx) storeAllowed(s string) string {
+	g := or(fmt.Sprintf("(>= %s %s)", s, c.entry.alloc), "(iterStore "+s+")")
+	if ms := c.myStoreRef(); ms != "" {
+		g = or(g, fmt.Sprintf("(= %s %s)", s, ms))
+	}
+	if extra := c.assignsAllows(s); extra != "" {
+		g = or(g, extra)
+	}
+	return g
 }
